@@ -31,7 +31,28 @@ func checkC08(c *Ctx) {
 	c.Rule("R4", "processor table writers; exists-arm does not create; registered only after a successful start")
 	c.Rule("R5", "a processor's configuration is replaced only after every fallible step succeeded")
 
-	evtCh := p.Field(configPkg, "Config", "evtCh")
+	// the event channel by role: the one struct field of the store's package whose type is a channel of Event
+	var evtCh *types.Var
+	if pk := p.TPkg(configPkg); pk != nil {
+		sc := pk.Types.Scope()
+		for _, n := range sc.Names() {
+			tn, ok := sc.Lookup(n).(*types.TypeName)
+			if !ok {
+				continue
+			}
+			st, ok := tn.Type().Underlying().(*types.Struct)
+			if !ok {
+				continue
+			}
+			for i := 0; i < st.NumFields(); i++ {
+				if ch, ok := st.Field(i).Type().Underlying().(*types.Chan); ok {
+					if nt := namedOf(ch.Elem()); nt != nil && nt.Obj().Name() == "Event" && nt.Obj().Pkg() == pk.Types {
+						evtCh = st.Field(i)
+					}
+				}
+			}
+		}
+	}
 	sws := p.Field(configPkg, "Config", "sws")
 	handle := p.Func("controller", "(*Controller).handleEvent")
 	procs := p.Field("controller", "Controller", "procs")
